@@ -5,7 +5,7 @@
 //!   17 3 n1 fields.. n2 fields..                         -> class of Db::open (0 ok, 2 count mismatch, 6 column mismatch)
 //!   17 4 col n (len bytes..)*n                           -> per file name: 1 if the administration call removed it
 use crate::{prng::Rng, util::Out};
-use parity_db::{ColumnOptions, CompressionType, Db, Options};
+use parity_db::{ColumnOptions, CompressionType, Db, NewNode, NodeRef, Operation, Options};
 use std::collections::BTreeMap;
 use std::path::{Path, PathBuf};
 
@@ -365,13 +365,19 @@ fn val_of(c: usize, k: usize, gen: u64) -> Vec<u8> {
 fn read_all(db: &Db, cols: &[Opt], nkeys: usize) -> Vec<Vec<Option<Vec<u8>>>> {
 	cols.iter()
 		.enumerate()
-		.map(|(c, o)| (0..nkeys).map(|k| db.get(c as u8, &key_of(c, k, o.0[1] != 0)).unwrap()).collect())
+		.map(|(c, o)| (0..nkeys).map(|k| if o.0[5] != 0 { None } else { db.get(c as u8, &key_of(c, k, o.0[1] != 0)).unwrap() }).collect())
 		.collect()
 }
 
 fn admin_case(ctx: &mut Ctx, rng: &mut Rng) {
 	let ncols = rng.range(1, 4) as usize;
-	let cols: Vec<Opt> = (0..ncols).map(|_| Opt::random_valid(rng)).collect();
+	let mut cols: Vec<Opt> = (0..ncols).map(|_| Opt::random_valid(rng)).collect();
+	// a third of the databases have a counted multitree column with a shared node, so that a
+	// reference-count file exists as well
+	let mt_col = if rng.chance(1, 3) { Some(rng.below(ncols as u64) as usize) } else { None };
+	if let Some(m) = mt_col {
+		cols[m] = Opt([1, 0, 1, 0, 0, 1, 0, 1]);
+	}
 	let nkeys = rng.range(2, 6) as usize;
 	let dir = ctx.scratch.join("adb");
 	let img = ctx.scratch.join("adb-img");
@@ -381,8 +387,20 @@ fn admin_case(ctx: &mut Ctx, rng: &mut Rng) {
 	let mut expect: Vec<Vec<Option<Vec<u8>>>> = vec![vec![None; nkeys]; ncols];
 	{
 		let db = Db::open_or_create(&options(&dir, &cols)).expect("create");
+		if let Some(m) = mt_col {
+			let leaf = NewNode { data: b"shared-leaf".to_vec(), children: vec![] };
+			db.commit_changes(vec![(m as u8, Operation::InsertTree(b"root-a".to_vec(), NewNode { data: b"a".to_vec(), children: vec![NodeRef::New(leaf)] }))]).unwrap();
+			db.process_commits().unwrap();
+			if let Ok(Some((_, children))) = db.get_root(m as u8, b"root-a") {
+				db.commit_changes(vec![(m as u8, Operation::InsertTree(b"root-b".to_vec(), NewNode { data: b"b".to_vec(), children: vec![NodeRef::Existing(children[0])] }))]).unwrap();
+				db.process_commits().unwrap();
+			}
+		}
 		let mut tx = Vec::new();
 		for c in 0..ncols {
+			if Some(c) == mt_col {
+				continue
+			}
 			for k in 0..nkeys {
 				if rng.chance(3, 4) {
 					let gen = if cols[c].0[0] != 0 { 0 } else { 1 };
@@ -401,6 +419,9 @@ fn admin_case(ctx: &mut Ctx, rng: &mut Rng) {
 			// unreplayed records
 			let mut tx = Vec::new();
 			for c in 0..ncols {
+				if Some(c) == mt_col {
+					continue
+				}
 				for k in 0..nkeys {
 					if rng.chance(1, 2) && cols[c].0[0] == 0 {
 						tx.push((c as u8, key_of(c, k, cols[c].0[1] != 0), Some(val_of(c, k, 2))));
@@ -469,6 +490,16 @@ fn admin_case(ctx: &mut Ctx, rng: &mut Rng) {
 		let gone = !after.contains_key(*n);
 		obs.push(gone as u64);
 	}
+	// nothing of the removed column may be left in the directory
+	if verdict.is_ok() && removed_col != 255 {
+		let left: Vec<&String> = after
+			.keys()
+			.filter(|n| ["index", "table", "refcount"].iter().any(|kind| n.starts_with(&format!("{kind}_{removed_col:02}_"))))
+			.collect();
+		if !left.is_empty() {
+			verdict = Err(format!("admin-files-left-behind after {opname}(col {removed_col}): files of the column are still there: {:?}", left));
+		}
+	}
 	// read-out
 	if verdict.is_ok() {
 		let final_cols = match op {
@@ -500,6 +531,18 @@ fn admin_case(ctx: &mut Ctx, rng: &mut Rng) {
 								got[c][k].as_ref().map(|v| String::from_utf8_lossy(v).chars().take(24).collect::<String>()),
 								want.as_ref().map(|v| String::from_utf8_lossy(v).chars().take(24).collect::<String>())
 							));
+						}
+					}
+				}
+				if let Some(m) = mt_col {
+					let affected = matches!(op, 2 | 3) && m == target;
+					if m < final_cols.len() && final_cols[m].0[5] != 0 {
+						let n = db.get_num_column_value_entries(m as u8).unwrap_or(0xeeee);
+						if affected && n != 0 && verdict.is_ok() {
+							verdict = Err(format!("admin-column-not-empty after {opname}(col {target}): the multitree column still holds {n} entries"));
+						}
+						if !affected && n != 3 && verdict.is_ok() {
+							verdict = Err(format!("admin-other-column-changed after {opname}(col {target}): multitree column {m} holds {n} entries instead of 3"));
 						}
 					}
 				}
